@@ -1,5 +1,247 @@
-//! Conformance harness for specification-growth module g09 (see /verif/DESIGN.md 12.6).
+//! Conformance harness for specification-growth module G09 - invocation,
+//! initialisation and termination of the shell (spec/Startup.tla).
+//!
+//!   yv-g09 replay --in gen.ndjson --out mismatch.ndjson [--real-every K] [--threads T]
+//!       spec -> impl: every line is a scenario printed by Gen_Startup with its
+//!       rendering and the outcomes Startup!Expect allows; it is run on the
+//!       simulated OS and (every K-th eligible one, small families entirely) on
+//!       the real OS through the true entry point; deviations are written out.
+//!   yv-g09 random --runs N --real M --out trace.ndjson
+//!       impl -> spec: seeded random scenarios, rendered here, run, recorded;
+//!       Trace_Startup.tla judges the records.
+//!   yv-g09 redo --in one.json
+//!       runs one scenario (a line of either kind) again and prints what it shows.
+mod real;
+mod scen;
+mod sim;
+
+use rand::SeedableRng;
+use scen::{Deviation, Obs, Rendered};
+use serde_json::{Value, json};
+use std::io::{BufRead, Write};
+use std::sync::Mutex;
+use std::sync::atomic::{AtomicUsize, Ordering};
+use yvcommon::util::{catch, opt, opt_usize, open_in, open_out, quiet_panics, seed};
+
+fn sim_run(r: &Rendered) -> Obs {
+    match catch(|| sim::run(r)) {
+        Ok(o) => o,
+        Err(m) => Obs { outcome: format!("panic: {m}"), out: vec![], status: 0, sig: 0, stderr: String::new() },
+    }
+}
+
+fn real_eligible(r: &Rendered) -> bool {
+    r.ids == "same"
+}
+
+fn mismatch(mode: &str, j: &Value, d: &Deviation, obs: &Obs) -> Value {
+    json!({"mode": mode, "fam": j["fam"], "field": d.field, "pos": d.pos, "exp": d.exp, "got": d.got, "class": j["class"],
+           "plan": j["plan"], "sc": j["sc"], "argv": j["argv"], "alts": j["alts"], "seen": obs.to_json(), "line": j})
+}
+
+/// Judges one observation against a generated line: the deviations (none = allowed).
+fn judge_line(j: &Value, obs: &Obs) -> Vec<Deviation> {
+    if j["class"] == "unspec" {
+        // neither POSIX nor the manual decides: the shell must merely terminate
+        if obs.outcome == "completed" { vec![] } else { scen::deviations(&json!({"out": []}), obs) }
+    } else {
+        scen::judge(&j["alts"], obs)
+    }
+}
+
+fn cmd_replay(args: &[String]) {
+    let threads = opt_usize(args, "--threads", 8);
+    let real_every = opt_usize(args, "--real-every", 20);
+    let lines: Vec<String> = open_in(args).lines().map(|l| l.expect("read")).filter(|l| !l.trim().is_empty()).collect();
+    let bin = real::prepare();
+    let next = AtomicUsize::new(0);
+    let mism: Mutex<Vec<Value>> = Mutex::new(vec![]);
+    let stats: Mutex<serde_json::Map<String, Value>> = Mutex::new(Default::default());
+    let samples: Mutex<Vec<Value>> = Mutex::new(vec![]);
+    let counters = [(); 8].map(|_| AtomicUsize::new(0));
+    // 0 sim cases, 1 sim deviations, 2 real cases, 3 real deviations, 4 unspec, 5 nontrivial, 6 real tty, 7 usage
+    std::thread::scope(|s| {
+        for _ in 0..threads {
+            s.spawn(|| {
+                quiet_panics();
+                loop {
+                    let i = next.fetch_add(1, Ordering::SeqCst);
+                    if i >= lines.len() {
+                        break;
+                    }
+                    let j: Value = serde_json::from_str(&lines[i]).expect("gen line");
+                    let r = Rendered::from_gen(&j);
+                    let fam = j["fam"].as_str().unwrap_or("").to_string();
+                    let obs = sim_run(&r);
+                    counters[0].fetch_add(1, Ordering::Relaxed);
+                    if j["class"] == "unspec" {
+                        counters[4].fetch_add(1, Ordering::Relaxed);
+                    }
+                    if j["class"] == "usage" {
+                        counters[7].fetch_add(1, Ordering::Relaxed);
+                    }
+                    let ds = judge_line(&j, &obs);
+                    if !ds.is_empty() {
+                        counters[1].fetch_add(1, Ordering::Relaxed);
+                        for d in &ds {
+                            mism.lock().unwrap().push(mismatch("sim", &j, d, &obs));
+                        }
+                    } else if j["class"] == "ok" && !obs.out.is_empty() {
+                        counters[5].fetch_add(1, Ordering::Relaxed);
+                    }
+                    {
+                        let mut st = stats.lock().unwrap();
+                        let e = st.entry(fam.clone()).or_insert(json!(0));
+                        *e = json!(e.as_u64().unwrap_or(0) + 1);
+                    }
+                    // the small families entirely, the big ones sampled
+                    let small = matches!(fam.as_str(), "portable" | "files" | "vars");
+                    let take = real_eligible(&r) && (i % real_every == 0 || (small && i % 2 == 0) || fam == "portable");
+                    if take {
+                        let obs = real::run(&r, &bin);
+                        counters[2].fetch_add(1, Ordering::Relaxed);
+                        if r.tin || r.terr {
+                            counters[6].fetch_add(1, Ordering::Relaxed);
+                        }
+                        let ds = if obs.outcome == "no-pty" { vec![] } else { judge_line(&j, &obs) };
+                        if !ds.is_empty() {
+                            counters[3].fetch_add(1, Ordering::Relaxed);
+                            for d in &ds {
+                                mism.lock().unwrap().push(mismatch("real", &j, d, &obs));
+                            }
+                        }
+                        let mut sm = samples.lock().unwrap();
+                        if sm.len() < 6 && i % 977 == 0 {
+                            sm.push(json!({"argv": j["argv"], "mode": "real", "stdout": obs.out, "status": obs.status, "sig": obs.sig}));
+                        }
+                    }
+                }
+            });
+        }
+    });
+    real::cleanup();
+    let mut out = open_out(args);
+    let mism = mism.into_inner().unwrap();
+    for m in &mism {
+        writeln!(out, "{m}").unwrap();
+    }
+    out.flush().unwrap();
+    let c = |k: usize| counters[k].load(Ordering::Relaxed);
+    println!(
+        "{}",
+        json!({"scenarios": lines.len(), "sim": {"cases": c(0), "mismatches": c(1)},
+               "real": {"cases": c(2), "mismatches": c(3), "with_tty": c(6)}, "unspec": c(4), "usage": c(7),
+               "nontrivial": c(5), "families": Value::Object(stats.into_inner().unwrap()),
+               "samples": samples.into_inner().unwrap()})
+    );
+}
+
+fn cmd_random(args: &[String]) {
+    let runs = opt_usize(args, "--runs", 1000);
+    let real_n = opt_usize(args, "--real", 100);
+    let threads = opt_usize(args, "--threads", 8);
+    let mut rng = rand::rngs::StdRng::seed_from_u64(seed().wrapping_mul(0x9E37_79B9).wrapping_add(9));
+    let scs: Vec<Value> = (0..runs).map(|_| scen::random_scenario(&mut rng)).collect();
+    let bin = real::prepare();
+    let next = AtomicUsize::new(0);
+    let real_left = AtomicUsize::new(real_n);
+    let recs: Mutex<Vec<(usize, Value)>> = Mutex::new(vec![]);
+    let real_done = AtomicUsize::new(0);
+    std::thread::scope(|s| {
+        for _ in 0..threads {
+            s.spawn(|| {
+                quiet_panics();
+                loop {
+                    let i = next.fetch_add(1, Ordering::SeqCst);
+                    if i >= scs.len() {
+                        break;
+                    }
+                    let sc = &scs[i];
+                    let (r, script) = scen::render(sc);
+                    let mut runs = vec![];
+                    let o = sim_run(&r);
+                    runs.push(json!({"mode": "sim", "outcome": o.outcome, "out": o.out, "status": o.status, "sig": o.sig,
+                                     "err": if o.stderr.is_empty() { "empty" } else { "nonempty" }}));
+                    if real_eligible(&r)
+                        && real_left.fetch_update(Ordering::SeqCst, Ordering::SeqCst, |x| x.checked_sub(1)).is_ok()
+                    {
+                        let o = real::run(&r, &bin);
+                        if o.outcome != "no-pty" {
+                            real_done.fetch_add(1, Ordering::Relaxed);
+                            runs.push(json!({"mode": "real", "outcome": o.outcome, "out": o.out, "status": o.status, "sig": o.sig,
+                                             "err": if o.stderr.is_empty() { "empty" } else { "nonempty" }}));
+                        }
+                    }
+                    recs.lock().unwrap().push((i, json!({"id": i, "sc": sc, "argv": r.argv, "stdin": r.stdin, "script": script, "runs": runs})));
+                }
+            });
+        }
+    });
+    real::cleanup();
+    let mut recs = recs.into_inner().unwrap();
+    recs.sort_by_key(|(i, _)| *i);
+    let mut out = open_out(args);
+    for (_, r) in &recs {
+        writeln!(out, "{r}").unwrap();
+    }
+    out.flush().unwrap();
+    println!("{}", json!({"records": recs.len(), "sim_runs": recs.len(), "real_runs": real_done.load(Ordering::Relaxed)}));
+}
+
+fn cmd_redo(args: &[String]) {
+    let path = opt(args, "--in").expect("--in");
+    let text = std::fs::read_to_string(path).expect("read --in");
+    let j: Value = serde_json::from_str(text.lines().next().unwrap_or("{}")).expect("json");
+    let (r, gen_line) = if j.get("alts").is_some() { (Rendered::from_gen(&j), true) } else { (scen::render(&j["sc"]).0, false) };
+    let bin = real::prepare();
+    let mut bad = 0;
+    let mut results = vec![("sim", sim_run(&r))];
+    if real_eligible(&r) {
+        results.push(("real", real::run(&r, &bin)));
+    }
+    real::cleanup();
+    println!("argv: {:?}", r.argv);
+    println!("stdin: {:?}  tty(stdin,stderr)=({},{})  ids={}  env={:?}", r.stdin, r.tin, r.terr, r.ids, r.env);
+    for (mode, o) in &results {
+        println!("{mode}: outcome={} status={} sig={} stdout={:?} stderr={:?}", o.outcome, o.status, o.sig, o.out, scen::clip(&o.stderr, 400));
+        if gen_line {
+            let ds = if o.outcome == "no-pty" { vec![] } else { judge_line(&j, o) };
+            if ds.is_empty() {
+                println!("  -> allowed");
+            } else {
+                bad += 1;
+                for d in &ds {
+                    println!("  -> DEVIATES in {} (line {}: expected {:?}, got {:?})", d.field, d.pos, d.exp, d.got);
+                }
+                println!("  allowed: {}", j["alts"]);
+            }
+        }
+    }
+    let recs: Vec<Value> = results
+        .iter()
+        .map(|(mode, o)| {
+            json!({"mode": mode, "outcome": o.outcome, "out": o.out, "status": o.status, "sig": o.sig,
+                   "err": if o.stderr.is_empty() { "empty" } else { "nonempty" }})
+        })
+        .collect();
+    if let Some(p) = opt(args, "--out") {
+        let (rr, script) = if gen_line { (r.clone(), j["script"].as_str().unwrap_or("").to_string()) } else { scen::render(&j["sc"]) };
+        std::fs::write(p, format!("{}\n", json!({"id": 0, "sc": j["sc"], "argv": rr.argv, "stdin": rr.stdin, "script": script, "runs": recs})))
+            .expect("write --out");
+    }
+    println!("{}", json!({"bad": bad}));
+}
+
 fn main() {
-    eprintln!("yv-g09: not implemented yet");
-    std::process::exit(2);
+    yvcommon::real::maybe_child_main();
+    let args: Vec<String> = std::env::args().skip(1).collect();
+    match args.first().map(|s| s.as_str()) {
+        Some("replay") => cmd_replay(&args[1..]),
+        Some("random") => cmd_random(&args[1..]),
+        Some("redo") => cmd_redo(&args[1..]),
+        _ => {
+            eprintln!("usage: yv-g09 replay|random|redo ...");
+            std::process::exit(2);
+        }
+    }
 }
